@@ -4,6 +4,7 @@ from __future__ import annotations
 
 import contextlib
 import io
+import re
 import itertools
 import multiprocessing as mp
 import os
@@ -25,11 +26,14 @@ HTEXTS = {
     "span": '<text:h text:outline-level="{lvl}">x<text:span text:style-name="T1">y z</text:span>w</text:h>',
     "note": '<text:h text:outline-level="{lvl}">Tn<text:note text:id="n1" text:note-class="footnote"><text:note-citation>1</text:note-citation><text:note-body><text:p>body</text:p></text:note-body></text:note>end</text:h>',
     "lb": "a\nb",
+    # the note anchored inside a span / the annotation inside a link of the heading
+    "note-in-span": '<text:h text:outline-level="{lvl}">St<text:span text:style-name="T1">yl<text:note text:id="n2" text:note-class="footnote"><text:note-citation>2</text:note-citation><text:note-body><text:p>body</text:p></text:note-body></text:note>ed</text:span> end</text:h>',
+    "annotation-in-link": '<text:h text:outline-level="{lvl}">La<text:a xlink:href="http://x/" xlink:type="simple">st<office:annotation><dc:creator>me</dc:creator><text:p>remark</text:p></office:annotation>x</text:a> end</text:h>',
 }
 
 
 def make_header(level, kind, idx):
-    if kind in ("span", "note"):
+    if kind in ("span", "note", "note-in-span", "annotation-in-link"):
         return Element.from_tag(HTEXTS[kind].format(lvl=level))
     return Header(level, f"{HTEXTS[kind]}{idx}")
 
@@ -156,7 +160,9 @@ def check_fill(doc, levels, outline, cls, detail, fails, step):
         with contextlib.redirect_stdout(buf):
             headers_document(doc, limit)
         if "lb" not in detail.get("kinds", []):
-            snums = [ln.split(" ", 1)[0] for ln in buf.getvalue().splitlines() if ln.strip()]
+            # one line per heading, "<number> <text>"; the text of a heading may itself span lines
+            # (an annotation body printed by the script): only lines starting with a number count
+            snums = [ln.split(" ", 1)[0] for ln in buf.getvalue().splitlines() if re.match(r"\d+(\.\d+)*\. ", ln)]
             tnums = [odfws.raw_text(p).split(" ", 1)[0] for p in ps]
             if snums != tnums:
                 rec("script-agrees", tnums, snums, "headers-script-disagrees")
@@ -226,7 +232,7 @@ def tasks_for(tier):
             outlines = (0, 1, 2, 3, 10)
             poses = ("first", "middle", "last")
             hists = (None, "edit-text", "edit-level", "delete", "insert")
-            kindsets = (("plain",), ("ws", "plain"), ("span", "ws"), ("note", "plain"), ("lb",))
+            kindsets = (("plain",), ("ws", "plain"), ("span", "ws"), ("note", "plain"), ("lb",), ("note-in-span", "plain"), ("annotation-in-link", "ws"))
             for j in range(2 if tier == "quick" else 5):
                 ks = kindsets[(k + j) % len(kindsets)]
                 kinds = tuple(ks[i % len(ks)] for i in range(n))
@@ -236,7 +242,7 @@ def tasks_for(tier):
         for levels in itertools.product(LV, repeat=n):
             for outline in (0, 1, 2, 3, 10):
                 for pos in ("first", "middle", "last"):
-                    for kd in ("plain", "ws", "span", "note", "lb"):
+                    for kd in ("plain", "ws", "span", "note", "lb", "note-in-span", "annotation-in-link"):
                         for hist in (None, "edit-text", "edit-level", "delete", "insert"):
                             out.append((levels, tuple(kd for _ in range(n)), outline, pos, hist))
     # headings inside sections, list items, table cells (every level sequence <= 3, two outline levels)
